@@ -1,6 +1,6 @@
 (* Proofs about the VM-side co-process client (NV.Proto.CopClient). *)
 From Coq Require Import NArith List Bool Lia.
-From NV Require Import Base.Bytes gen.CopConst Proto.CopCodec Proto.CopClient.
+From NV Require Import Base.Bytes gen.CopConst Proto.CopCodec Proto.CopCodecProofs Proto.CopClient.
 Import ListNotations.
 Local Open Scope N_scope.
 
@@ -392,39 +392,68 @@ Qed.
 Theorem stop_killed_only_by_sigpipe : forall v w f w', inv v w -> cop_stop v w = Stop f w' -> f = FKilled LShutdown /\ sigign w = false.
 Proof. intros v w f w' I E. pose proof (cop_stop_spec v w I) as S. rewrite E in S. exact S. Qed.
 
-(* ---------- refutations (witness scripts, evaluated) *)
+(* ---------- the real reply decoder (cop_deserialize_value of the current sources, any allocator) is bounds-safe, so the
+   containment theorems hold for it without a decoder hypothesis *)
 Definition msg_ready : list byte := frame COP_MSG_READY [].
 Definition dec_real : list byte -> dres := deser_a 4294967295.
 
-(* the peer announces READY with its stdin already closed and stays alive: SIGPIPE default => the VM is killed while
-   writing the first request, and the peer is left running *)
+Theorem dec_real_safe : forall amax, safe_dec (deser_a amax).
+Proof. intros amax p. apply deser_never_oob. Qed.
+
+Theorem call_contained_real : forall amax j req v w,
+  sigign w = true -> req <> ReqOverrun -> inv v w ->
+  match call_cop (deser_a amax) j req v w with
+  | Go _ v' w' => inv v' w' /\ sigign w' = true
+  | Stop (FHang _) w' => hang_ok w'
+  | Stop _ _ => False
+  end.
+Proof. intros amax j req v w G Nr I. apply call_contained; auto. apply dec_real_safe. Qed.
+
+Theorem run_contained_real : forall amax scripts reqs,
+  no_overrun reqs ->
+  let o := run (deser_a amax) true scripts reqs in
+  match o_status o with
+  | SExit0 | SExit1 => has_pid (o_vm o) = false /\ all_reaped (o_world o) = true /\ orphans (o_world o) = false /\ wfb (o_vm o) (o_world o) = true
+  | SHang _ => hang_ok (o_world o)
+  | SKilled _ | SCrash => False
+  end.
+Proof. intros amax scripts reqs Nr. apply run_contained; auto. apply dec_real_safe. Qed.
+
+(* ---------- why both repairs matter: the same scripts evaluated under the old assumptions *)
+
+(* the peer announces READY with its stdin already closed and stays alive.  If SIGPIPE were at its default disposition the
+   VM would be killed while writing the first request and the peer would be left running ... *)
 Definition script_close_stdin : script := [(LReady, [ACloseIn; ADeliver msg_ready])].
 Theorem sigpipe_default_kills :
   let o := run dec_real false [script_close_stdin] [ReqOk []] in
   o_status o = SKilled (LReq 1) /\ orphans (o_world o) = true.
 Proof. vm_compute. split; reflexivity. Qed.
-(* the same script with SIGPIPE ignored: reported error, exit status 1, peer reaped *)
+(* ... with SIGPIPE ignored (what the sources do now): reported error, exit status 1, peer reaped *)
 Theorem sigpipe_ignored_contains :
   let o := run dec_real true [script_close_stdin] [ReqOk []] in
   o_status o = SExit1 /\ o_err o = Some EReqDied /\ orphans (o_world o) = false /\ all_reaped (o_world o) = true.
 Proof. vm_compute. repeat split; reflexivity. Qed.
 
-(* the peer exits after READY: the VM notices EOF and is then killed by the SHUTDOWN it writes in vm_ffi_cop_stop *)
+(* the peer exits after READY: default disposition => killed by the SHUTDOWN written in vm_ffi_cop_stop *)
 Definition script_exit_before_reply : script := [(LReady, [ADeliver msg_ready]); (LHdr 1, [AExit 0])].
 Theorem sigpipe_default_kills_in_stop :
   o_status (run dec_real false [script_exit_before_reply] [ReqOk []]) = SKilled LShutdown.
 Proof. vm_compute. reflexivity. Qed.
+Theorem exit_before_reply_contained :
+  let o := run dec_real true [script_exit_before_reply] [ReqOk []] in
+  o_status o = SExit1 /\ o_err o = Some ERespDied /\ all_reaped (o_world o) = true.
+Proof. vm_compute. repeat split; reflexivity. Qed.
 
-(* even with SIGPIPE ignored the real reply decoder is not safe: a well-framed FFI_RESULT whose string length field is
-   0xffffffff makes cop_deserialize_value read out of bounds *)
-Definition script_str_wrap : script :=
-  [(LReady, [ADeliver msg_ready]); (LHdr 1, [ADeliver (frame COP_MSG_FFI_RESULT [TAG_STRING; 255; 255; 255; 255])])].
-Theorem real_decoder_crashes :
-  o_status (run dec_real true [script_str_wrap] [ReqOk []]) = SCrash /\ ~ safe_dec dec_real.
-Proof.
-  split; [vm_compute; reflexivity|]. intros S. apply (S [TAG_STRING; 255; 255; 255; 255]). vm_compute. reflexivity.
-Qed.
-(* ... and so does a huge array count when the allocator refuses it *)
-Theorem real_decoder_crashes_on_alloc_failure :
-  deser_a 268435455 [TAG_ARRAY; 1; 255; 255; 255; 255; TAG_VOID] = DOob.
+(* hostile replies that used to crash the decoder are now reported as "failed to deserialize result" *)
+Definition script_reply (payload : list byte) : script :=
+  [(LReady, [ADeliver msg_ready]); (LHdr 1, [ADeliver (frame COP_MSG_FFI_RESULT payload)]); (LWait1, [AExit 0])].
+Theorem hostile_replies_contained :
+  forallb (fun p => match run dec_real true [script_reply p] [ReqOk []] with
+                    | mkOut SExit1 (Some EDeser) 0 _ w => all_reaped w
+                    | _ => false end)
+    [ [TAG_STRING; 255; 255; 255; 255];                       (* string length 0xffffffff *)
+      [TAG_STRING; 251; 255; 255; 255; 97; 98];
+      [TAG_ARRAY; 1; 255; 255; 255; 255; TAG_VOID];           (* array count 0xffffffff *)
+      [TAG_ARRAY; 1; 2; 0; 0; 0; TAG_VOID];                   (* count larger than what follows *)
+      flat_map (fun _ => [TAG_ARRAY; 1; 1; 0; 0; 0]) (repeat tt 300) ++ [TAG_VOID] ] = true.   (* 300 nested arrays *)
 Proof. vm_compute. reflexivity. Qed.
